@@ -366,16 +366,7 @@ def c09(out, tier, rng):
         o = S.input(g)
         lines = S.write(o)
         if lines:
-            fl = {}
-            for l in lines:
-                for t in l.replace("-\nM  V30 ", "").split():
-                    pass
-            # numeric reading of the six-decimal literals the decoder will find
-            for e in S.ev:
-                if e["op"] == "write":
-                    for tri in e["xyz6"]:
-                        for t in tri:
-                            fl[t] = repr(float(t))
+            fl = textgen.floats_from_lines(lines)
             rb = S.read(lines, "V3000", "C09", floats=fl)
         ss.append(S)
     # labels need not be 0..n-1: wide (bond lines wrap too) and sparse (a fragment cut out of a larger graph) atom numbers
@@ -390,7 +381,7 @@ def c09(out, tier, rng):
         o = S.input(g)
         lines = S.write(o, live=big, relabel=lab)
         if lines:
-            fl = {x: repr(float(x)) for e in S.ev if e["op"] == "write" for tri in e["xyz6"] for x in tri}
+            fl = textgen.floats_from_lines(lines)
             S.read(lines, "V3000", "C09", floats=fl)
         ss.append(S)
     # string -> graph -> molfile -> graph -> string, also for graphs whose atoms are not listed in label order
@@ -411,7 +402,7 @@ def c09(out, tier, rng):
             lines = S.write(t)
             if not lines:
                 continue
-            fl = {x: repr(float(x)) for e in S.ev if e["op"] == "write" for tri in e["xyz6"] for x in tri}
+            fl = textgen.floats_from_lines(lines)
             rb = S.read(lines, "V3000", "C09", floats=fl)
             if rb:
                 # read-back atom i is the i-th atom the written graph lists: claimed only when the harness sees it hold
